@@ -38,7 +38,7 @@ def mc_list(thorough):
     L = [
         ("counter", (T3, 3, "HTCounter", "AlphaCounter"), {}, C),
         ("gauge", (T3, 3, "HTGauge", "AlphaGauge"), {}, G),
-        ("gaugecas", (T2, 2, "HTGauge", "AlphaGaugeCas"), {"fine": True}, GC),
+        ("gaugecas", (T2, 2, "HTGauge", "AlphaGaugeCasZ"), {"fine": True}, GC),
         ("hist", (T3, 2, "HTHist", "AlphaHist"), {}, Hh),
         ("mixed", (T2, 3, "HTMixed", "AlphaMixed"), {}, {"NoopOp", "CInc", "CAbs", "GAtomic", "HMany"}),
         # no operation is ever disabled by its value (ENABLED is expensive: smaller scopes)
